@@ -176,6 +176,33 @@ def s_map_err_generic(e, st, callee, args, dty):
     return NotImplemented
 
 
+def s_call_closure(e, st, callee, args, dty):
+    """Fn / FnMut / FnOnce call on a closure value built in the analysed code: run the closure body"""
+    f = args[0]
+    fv = deref_val(e, st, f)
+    span = fv.ty if isinstance(fv, Agg) and "closure" in fv.ty else (fv.name if isinstance(fv, FnV) and "closure" in fv.name else None)
+    if span is None:
+        return NotImplemented
+    cf = e.prog.closure_by_span(span)
+    if cf is None:
+        return NotImplemented
+    if isinstance(fv, FnV):
+        fv = Agg(span, {})
+    a0 = fv
+    want_ref = cf.args and cf.args[0][1].strip().startswith("&")
+    if want_ref:
+        if isinstance(f, Ref):
+            a0 = f
+        else:
+            cell = "callclo:%d" % st.counter
+            st.counter += 1
+            st.mem[cell] = fv
+            a0 = Ref(cell, (), True)
+    tup = args[1] if len(args) > 1 else None
+    inner = [tup.fields[i] for i in sorted(tup.fields)] if isinstance(tup, Agg) else ([] if tup is None or isinstance(tup, Unit) else [tup])
+    return ("invoke", cf, [a0] + inner)
+
+
 def s_identity(e, st, callee, args, dty):
     return args[0]
 
@@ -356,6 +383,7 @@ def s_vec_push(e, st, callee, args, dty):
 
 
 BASE = {
+    r" as (std::ops::)?Fn(Once|Mut)?(<.*>)?>::call(_once|_mut)?$": s_call_closure,
     r"^<.* as (std::clone::)?Clone>::clone$": s_clone_value,
     r"^(std::vec::|alloc::vec::)?Vec::len$|^core::slice::<impl \[T\]>::len$": s_vec_len,
     r"^(std::vec::|alloc::vec::)?Vec::is_empty$|^core::slice::<impl \[T\]>::is_empty$": s_vec_is_empty,
